@@ -467,7 +467,14 @@ class Range(object):
         assert other != (None, None)
 
         lower, upper = other
-        result = self._item_contains(some, lower) or self._item_contains(some, upper)
+        some_lower, some_upper = some
+        result = (
+            self._item_contains(some, lower)
+            or self._item_contains(some, upper)
+            # ``some`` might be completely within ``other``, for example "5...6" within "1...10".
+            or self._item_contains(other, some_lower)
+            or self._item_contains(other, some_upper)
+        )
         return result
 
     def _item_contains(self, item, value):
